@@ -67,7 +67,7 @@ def main():
             entries[rootname] = None
             # names starting with a digit sort differently (alphanum_key); names with glob metacharacters next to the name they match
             for sub in ("sub", "sub/deep", "a.b", "1st", "run[1]", "run1", "wh?t", "what"):
-                if rng.random() < 0.7 or sub == "sub":
+                if rng.random() < 0.7 or sub == "sub" or li == 0:        # (the first layout has every directory and every file)
                     entries[rootname + "/" + sub] = None
             files = ["t.csv", "sub/u.csv", "notes.txt", "sub/x.dat", ".hidden", "arch.tar.gz", "a.b/t.csv", "mycatalog.xml",
                      "2020-01.csv", "10.txt", "sub/9.csv", "1st/t.csv",
@@ -75,7 +75,7 @@ def main():
                      "notes.txt.bak", "t.csv.das", "sub/u.csv.orig", "t.csv.dds",
                      "run[1]/in_brackets.txt", "run1/in_plain.txt", "wh?t/q.txt", "what/w.txt"]
             for f in files:
-                if rng.random() < 0.8 and (os.path.dirname(rootname + "/" + f) in entries):
+                if (rng.random() < 0.8 or li == 0) and (os.path.dirname(rootname + "/" + f) in entries):
                     entries[rootname + "/" + f] = f
             # siblings sharing the name prefix, and an unrelated one
             for sib in (rootname + "2", rootname + "_old", "other"):
@@ -121,7 +121,11 @@ def main():
                      "/sub/../../%s2/t.csv.dds" % rootname, "/..", "/../" + rootname + "/t.csv", "//etc/passwd", "/nodir/catalog.xml",
                      "/sub/catalog.xml", "/catalog.xml", "/../catalog.xml", "/../../../../../../etc/passwd",
                      "/%252e%252e/" + rootname + "2/t.csv.dds", "/%252e%252e/other/t.csv.dds", "/sub/%252e%252e/%252e%252e/other/t.csv.das",
-                     "/..%252Fother/t.csv.dods", "/%252e%252e/other/s.txt", "/%252e%252e/other/"]
+                     "/..%252Fother/t.csv.dods", "/%252e%252e/other/s.txt", "/%252e%252e/other/",
+                     # directories whose names are glob patterns matching a sibling: listings, catalogs and files of both
+                     "/run%5B1%5D/", "/run%5B1%5D/catalog.xml", "/run%5B1%5D", "/run1/", "/run1/catalog.xml", "/wh%3Ft/", "/wh%3Ft/catalog.xml",
+                     "/what/", "/what/catalog.xml", "/run%5B1%5D/in_brackets.txt", "/run1/in_plain.txt", "/wh%3Ft/q.txt", "/what/w.txt",
+                     "/run%5B1%5D/in_plain.txt", "/wh%3Ft/w.txt", "/1st/", "/a.b/", "/sub/", "/sub/deep/", "/sub/deep/catalog.xml"]
             app = DapServer(root)
             root_comps = [c for c in root.split("/") if c]
             fs_list = []
